@@ -11,6 +11,15 @@ package trzsz
 //             Read / Write / Close are events) that plays the server's tunnel connection.
 //   hooks:    the 16 vhook points of relay.go are recorded and delayed with seeded random sleeps.
 //
+// Driver x03_relaytunnel, param mode:
+//   mix     one to three transfers per relay instance (tunnel / in-band, confirmed / refused / undecodable CFG, ended by
+//           either side with #EXIT: / #FAIL: / #fail:), a second connection pair racing for the CAS or dialling after the
+//           adoption; in-band noise is held back while a trigger with a port has not yet led to tunnelConnected (gate);
+//           the ends close client first and the server-side connection reports its own Close as io.EOF
+//   window  an in-band chunk is fed exactly between hook relay.hs.act and tunnelConnected.Store (steered by the hook)
+//   late    the server's greeting of a second pair is withheld until the transfer is over; the next trigger's connection is probed
+//   pumps   real error values (net.ErrClosed), all close orders; goroutines / CPU / allocation left behind are measured
+//
 // Events (ndjson, one per spec action of RelayTunnelTrace.tla):
 //   reset{confirm}  feed{side,u}  deliver{to,u}  hook{p,a}  dial{pr}  dialfail{pr}  connect{pr}
 //   hello4{pr}  twrite{pr,u}  tfeed{pr,u}  tdeliver{pr,to,u}  tclose{pr,who}  rclosed{pr,side}
@@ -535,7 +544,7 @@ func (s *x03Sess) fail(where string) bool {
 
 // wait polls cond (generous bound: the machine may be heavily loaded); a time-out marks the session stuck
 func (s *x03Sess) wait(where string, cond func() bool) bool {
-	deadline := time.Now().Add(20 * time.Second)
+	deadline := time.Now().Add(30 * time.Second)
 	for !cond() {
 		if s.stuck.Load() {
 			return false
@@ -677,7 +686,7 @@ func (s *x03Sess) atRest() bool {
 }
 
 // settle: everything the relay accepted has come out (internal channels empty, no new event for a while)
-func (s *x03Sess) settle(tunnels []*tunnelRelay) {
+func (s *x03Sess) settle(tunnels []*tunnelRelay, rounds int) {
 	empty := func() bool {
 		r := s.relay
 		if len(r.osStdinChan) > 0 || len(r.osStdoutChan) > 0 || len(r.bypassTmuxChan) > 0 || len(r.stdinBuffer.bufCh) > 0 || len(r.stdoutBuffer.bufCh) > 0 {
@@ -692,7 +701,7 @@ func (s *x03Sess) settle(tunnels []*tunnelRelay) {
 	}
 	deadline := time.Now().Add(10 * time.Second)
 	okRounds := 0
-	for okRounds < 2 && time.Now().Before(deadline) {
+	for okRounds < rounds && time.Now().Before(deadline) {
 		n := s.tr.Len()
 		time.Sleep(15 * time.Millisecond)
 		if empty() && s.tr.Len() == n {
@@ -994,7 +1003,12 @@ func (s *x03Sess) runRound(r int) bool {
 				s.fail("window hook not reached")
 				return
 			}
-			s.feedIn("c", []int{127 + 100 + r}) // a payload byte of its own
+			if rd.Confirm {
+				s.feedIn("c", []int{127 + 100 + r}) // a payload byte of its own
+			} else {
+				// refused transfer: in-band server output parked in the window goes to the client's tunnel connection
+				s.feedIn("s", []int{127 + 110 + r})
+			}
 			time.Sleep(3 * time.Millisecond)  // let the pump park it (it blocks on nothing: the worker holds no lock here)
 			close(s.winBack)
 		}()
@@ -1038,7 +1052,7 @@ func (s *x03Sess) runRound(r int) bool {
 		}
 		time.Sleep(5 * time.Millisecond)
 	}
-	s.settle([]*tunnelRelay{tun})
+	s.settle([]*tunnelRelay{tun}, 2)
 	s.ev(map[string]any{"e": "quiet", "round": r}, nil)
 	if tunnel {
 		s.closePair(adopted, tun)
@@ -1053,7 +1067,7 @@ func (s *x03Sess) runRound(r int) bool {
 	for _, p := range []*x03Pair{second} {
 		if p != nil && p.conn != nil && p != adopted {
 			// a connection that lost (or was refused) must have been closed by the relay
-			deadline := time.Now().Add(5 * time.Second)
+			deadline := time.Now().Add(15 * time.Second)
 			for time.Now().Before(deadline) && !x03Closed(p.gone) {
 				time.Sleep(200 * time.Microsecond)
 			}
@@ -1084,9 +1098,12 @@ func (s *x03Sess) closePair(p *x03Pair, tun *tunnelRelay) {
 		}
 		return true
 	}
+	// strict: the ends wait generously for the relay to finish with the pair; what has not happened by then is judged
+	// (RelayTunnelTrace: no end-of-stream step of the pair may still be enabled).  A short wait is an observation only.
 	bound := time.Duration(s.plan.CloseWaitMs) * time.Millisecond
-	if bound == 0 {
-		bound = 3 * time.Second
+	strict := bound == 0
+	if strict {
+		bound = 15 * time.Second
 	}
 	switch s.plan.Close {
 	case "srv":
@@ -1120,11 +1137,18 @@ func (s *x03Sess) closePair(p *x03Pair, tun *tunnelRelay) {
 	}
 	time.Sleep(10 * time.Millisecond)
 	c2 = x03TakeCensus()
-	cls := func(n2, busy1, busy2, sleep2, n0, busy0, sleep0 int) string {
+	c3 := c2
+	if !(c2.TI < before.TI && c2.TO < before.TO) {
+		// "spin" = seen running / runnable in three samples spread over tens of milliseconds (a goroutine that merely
+		// waits for a processor on a busy machine is not spinning)
+		time.Sleep(30 * time.Millisecond)
+		c3 = x03TakeCensus()
+	}
+	cls := func(n2, busy1, busy2, busy3, sleep2, n0, busy0, sleep0 int) string {
 		switch {
 		case n2 < n0:
 			return "ended"
-		case busy1 > busy0 && busy2 > busy0:
+		case busy1 > busy0 && busy2 > busy0 && busy3 > busy0:
 			return "spin"
 		case sleep2 > sleep0:
 			return "eofwait"
@@ -1132,15 +1156,15 @@ func (s *x03Sess) closePair(p *x03Pair, tun *tunnelRelay) {
 			return "read"
 		}
 	}
-	ti := cls(c2.TI, c1.TIBusy, c2.TIBusy, c2.TISleep, before.TI, before.TIBusy, before.TISleep)
-	to := cls(c2.TO, c1.TOBusy, c2.TOBusy, c2.TOSleep, before.TO, before.TOBusy, before.TOSleep)
+	ti := cls(c2.TI, c1.TIBusy, c2.TIBusy, c3.TIBusy, c2.TISleep, before.TI, before.TIBusy, before.TISleep)
+	to := cls(c2.TO, c1.TOBusy, c2.TOBusy, c3.TOBusy, c2.TOSleep, before.TO, before.TOBusy, before.TOSleep)
 	alive := func(n, n0 int) string {
 		if n < n0 {
 			return "ended"
 		}
 		return "alive"
 	}
-	ev := map[string]any{"e": "pumps", "pr": p.pr, "ti": ti, "to": to, "wrs": alive(c2.WrS, before.WrS), "wrc": alive(c2.WrC, before.WrC)}
+	ev := map[string]any{"e": "pumps", "pr": p.pr, "ti": ti, "to": to, "wrs": alive(c2.WrS, before.WrS), "wrc": alive(c2.WrC, before.WrC), "strict": strict}
 	s.ev(ev, nil)
 	s.pmu.Lock()
 	s.census = append(s.census, map[string]any{"pr": p.pr, "ti": ti, "to": to, "wrs": ev["wrs"], "wrc": ev["wrc"],
@@ -1182,6 +1206,7 @@ func x03RunSession(tr *vTrace, plan *x03Plan) (ok bool, info map[string]any) {
 		s.closePair(s.late, nil)
 	}
 	if ok {
+		s.settle(nil, 3)
 		s.ev(map[string]any{"e": "final"}, nil)
 	} else {
 		at, _ := s.stuckAt.Load().(string)
